@@ -19,7 +19,12 @@ import (
 func init() { register("C08", runC08) }
 
 func runC08(c *mon.Ctx) {
-	c.Cases(func(i int, r *mon.Rand) { c08Run(c, r) })
+	c.Cases(func(i int, r *mon.Rand) {
+		c08Run(c, r)
+		if i%3 == 0 {
+			c08ImmediateClose(c, r.Fork(8))
+		}
+	})
 }
 
 func reportLoopGoroutines() int {
@@ -454,5 +459,32 @@ func c08Run(c *mon.Ctx, r *mon.Rand) {
 	c.Event("reporter-events-observed", int64(len(log)))
 	if c.WantSample() {
 		c.Sample(map[string]interface{}{"config": desc, "close_landed": where})
+	}
+}
+
+// c08ImmediateClose: Close called right after the root was built, before the
+// reporting goroutine has had a chance to run (one P: a new goroutine only
+// runs once its creator yields). When Close returns, that goroutine must have
+// ended all the same - it must not merely be "not started yet".
+func c08ImmediateClose(c *mon.Ctx, r *mon.Rand) {
+	prev := runtime.GOMAXPROCS(1)
+	defer runtime.GOMAXPROCS(prev)
+	for k := 0; k < 10; k++ {
+		before := reportLoopGoroutines()
+		pr := mon.NewPlainRec(true)
+		interval := time.Duration(r.Range(1, 50)) * time.Millisecond
+		root, closer := tally.NewRootScope(tally.ScopeOptions{Reporter: pr, OmitCardinalityMetrics: true}, interval)
+		if r.Bool() {
+			root.Counter("c").Inc(1)
+		}
+		err := closer.Close()
+		alive := reportLoopGoroutines() - before
+		if err != nil {
+			c.Violation("close-error-invented", map[string]interface{}{"why": fmt.Sprintf("Close right after construction returned %v", err)})
+		}
+		if alive > 0 {
+			c.Violation("report-loop-alive-when-close-returned", map[string]interface{}{"why": "Close was called right after NewRootScope (one P, the reporting goroutine had not run yet) and returned while that goroutine still existed", "interval_ms": interval.Milliseconds()})
+		}
+		c.Event("immediate-closes", 1)
 	}
 }
